@@ -107,9 +107,9 @@ func runC19(rc *RunCtx) {
 	}
 	// random: histories with restores (some replacing the wallet), rotation, and sometimes a crash
 	// weights:       mint send receive sendlocked melt resolvemelt reclaim mintswap rotate
-	weights := []int{3, 5, 5, 1, 3, 2, 2, 0, 1}
+	weights := []int{3, 5, 5, 1, 3, 2, 2, 0, 1, 1, 1, 2} // ... remelt clock reload
 	if len(fees) == 2 {
-		weights = []int{3, 5, 6, 3, 3, 2, 2, 1, 1}
+		weights = []int{3, 5, 6, 3, 3, 2, 2, 1, 1, 1, 1, 2}
 	}
 	rc.StepLoop(3, 14, func(i int) {
 		ww.step = i
